@@ -303,7 +303,8 @@ func c08Reference(name string, safe bool, args []*variants.Variant, before time.
 				return "= " + variantStr(r) + fmt.Sprintf(", expected an Array of the %d arguments", n)
 			}
 			for i := range args {
-				if r.GetByIndex(i) != args[i] {
+				// (the argument itself or an equal value: whether operands reach a function as copies is open)
+				if e := r.GetByIndex(i); e != args[i] && !(e != nil && e.Type() == args[i].Type() && payloadEq(e.AsObject(), args[i].AsObject())) {
 					return fmt.Sprintf("element %d is not argument %d", i, i)
 				}
 			}
